@@ -92,6 +92,41 @@ pub open spec fn mr_topped<T: AbstractDomain + SizedDomain + HasTop>(m: Map<i64,
     )
 }
 
+/// the LAYOUT part of the invariant: no stored cell is empty, no two stored cells overlap.  Says nothing about unknown
+/// values: it is what `values_mut()` / the first loop of mark_all_values_as_top leave behind (they may turn cells into the
+/// unknown value but -- for a size-preserving change -- move no cell).  mr_cells_ok = mr_layout_ok + "no cell is unknown".
+pub open spec fn mr_layout_ok<T: AbstractDomain + SizedDomain + HasTop>(m: Map<i64, T>) -> bool {
+    &&& forall |k: i64| #[trigger] m.contains_key(k) ==> m[k].bytesize_spec() > 0
+    &&& forall |k1: i64, k2: i64| #[trigger] m.contains_key(k1) && #[trigger] m.contains_key(k2) && k1 < k2
+            ==> k1 + m[k1].bytesize_spec() <= k2
+}
+
+/// clear_top_values: exactly the cells that are not the unknown value, unchanged
+pub open spec fn mr_without_tops<T: AbstractDomain + SizedDomain + HasTop>(m: Map<i64, T>) -> Map<i64, T> {
+    Map::new(m.dom().filter(|k: i64| !m[k].is_top_spec()), |k: i64| m[k])
+}
+
+/// the first loop of mark_all_values_as_top: the same offsets, every cell merged with the unknown value of its family
+pub open spec fn mr_all_with_top<T: AbstractDomain + SizedDomain + HasTop>(m: Map<i64, T>) -> Map<i64, T> {
+    Map::new(m.dom(), |k: i64| mr_with_top(m[k]))
+}
+
+/// mark_all_values_as_top: EVERY cell is replaced by merge(cell, top), or removed if that is the unknown value
+/// (= mr_topped for a range that every cell meets: lemma_mr_all_topped_is_topped)
+pub open spec fn mr_all_topped<T: AbstractDomain + SizedDomain + HasTop>(m: Map<i64, T>) -> Map<i64, T> {
+    Map::new(m.dom().filter(|k: i64| !mr_with_top(m[k]).is_top_spec()), |k: i64| mr_with_top(m[k]))
+}
+
+/// l lists the offsets of m, each exactly once, in ascending order (verif_mr_keys)
+pub open spec fn mr_keys_of<V>(l: Seq<i64>, m: Map<i64, V>) -> bool {
+    &&& forall |i: int| 0 <= i < l.len() ==> m.contains_key(#[trigger] l[i])
+    &&& forall |i: int, j: int| 0 <= i < j < l.len() ==> (#[trigger] l[i]) < (#[trigger] l[j])
+    &&& forall |k: i64| m.contains_key(k) ==> exists |i: int| 0 <= i < l.len() && #[trigger] l[i] == k
+}
+
+/// the offset k lies before position n of such a list (said arithmetically: the list is ascending)
+pub open spec fn mr_keys_visited(l: Seq<i64>, n: int, k: i64) -> bool { n < l.len() ==> k < l[n] }
+
 /// merge_write_top: a cell stored at p with exactly the size s is merged with the unknown value (and dropped if the
 /// result is the unknown value); otherwise every cell meeting [p, p+s) is removed
 pub open spec fn mr_write_topped<T: AbstractDomain + SizedDomain + HasTop>(m: Map<i64, T>, p: i64, s: ByteSize) -> Map<i64, T> {
